@@ -32,5 +32,17 @@ for p in sorted(glob.glob(f'{V}/seeded/*/meta.json')):
     if not how and m.get('detected_by_check'):
         how = 'no-failing-input-found (correspondence/proof broke)' if 'no-failing-input-found' in m.get('check_output', '') else 'oracle: failing input with replay'
     out.append(f"| {m['id']} | {m['property']} | {'yes' if m.get('detected_by_check') else 'NO'} | {c(how)} | {c(m.get('summary',''))[:400]} | {c(m.get('needs',''))[:300]} |\n")
+fr = f'{V}/seeded/fix-reverts.json'
+if os.path.exists(fr):
+    d = json.load(open(fr))
+    rows = d['rows']
+    n = lambda k: sum(1 for r in rows if r['result'] == k)
+    out.append('\n### 12.1 Repaired defects that return\n\n'
+               'A `fixed:` entry suppresses nothing. To check that, ' + d['what'] + f" (`tools/seeding/revert_fix.sh`; {len(rows)} commits): "
+               f"{n('violation-with-replay')} are reported again as a VIOLATION with a concrete replay, {n('violation-no-failing-input')} only through a "
+               f"broken obligation (no-failing-input-found), {n('revert-conflicts')} could not be reverted in isolation, {n('MISSED')} missed. Exceptions:\n\n")
+    for r in rows:
+        if r['result'] != 'violation-with-replay' or r.get('note'):
+            out.append(f"* {r['id']} ({r['property']}, {r['commit']}): {r['result']}" + (f" — {r['note']}" if r.get('note') else '') + '\n')
 open(f'{V}/DESIGN.md', 'w').write(''.join(out))
 print('DESIGN.md regenerated:', len(''.join(out)), 'bytes')
